@@ -39,6 +39,35 @@ RESIDUE = ["'no temporary file outlives a successful run' depends on CPython ref
 
 COLS1 = [("count", 32)]
 COLS2 = [("count", 32), ("x", 16)]
+SIG_FIRST = "temp-files-survive-first-create-in-process"
+
+_SUB = r"""
+import json, os, sys, warnings
+sys.path.insert(0, os.environ["C06_HARNESS"])
+warnings.simplefilter("ignore")
+import c06
+case = json.loads(sys.argv[1])
+print("RESULT " + json.dumps(c06.impl_api(sys.argv[2], case)))
+"""
+
+
+def impl_fresh_process(root, case):
+    """run ONE api case as the very first cooler creation of a fresh interpreter"""
+    import json
+    import subprocess
+    import sys
+    env = dict(os.environ, C06_HARNESS=os.path.dirname(os.path.abspath(__file__)))
+    sub = os.path.join(root, "fresh")
+    os.makedirs(sub, exist_ok=True)
+    try:
+        pr = subprocess.run([sys.executable, "-W", "ignore", "-c", _SUB, json.dumps(case), sub],
+                            capture_output=True, text=True, env=env, timeout=120)
+    except subprocess.TimeoutExpired:
+        return "timeout"
+    for ln in pr.stdout.splitlines():
+        if ln.startswith("RESULT "):
+            return json.loads(ln[7:])
+    return "crash"
 
 
 # --------------------------------------------------------------------- implementation
@@ -265,7 +294,8 @@ def check_oracle(ctx, case, got, exp):
         ctx.fail(case, {"expected": exp, "got": core}, None)
         return
     if not case.get("keep_temp") and got["temp_left"] != []:
-        ctx.fail(case, {"temporary files left behind": got["temp_left"]}, None)
+        ctx.fail(case, {"temporary files left behind": got["temp_left"]},
+                 SIG_FIRST if case.get("first_create_in_process") else None)
     if case.get("keep_temp") and got.get("edges") is not None:
         e = got["edges"]
         k = len(effective(case)[0])
@@ -475,6 +505,13 @@ def run(ctx):
     cases += malformed_cases(rng)
     cases += cli_cases(rng, 30 if thorough else 8)
 
+    # known finding (temp files of the FIRST creation of a process survive it): exercised in a fresh
+    # interpreter; this process is warmed up with one ordered creation so that every other case is
+    # observed in the steady state
+    first = api_case("A4", True, COLS1, [[(0, 1, [3]), (1, 2, [5])], [(0, 1, [1]), (2, 2, [7])]], 1, 1, first_create_in_process=True)
+    cases.insert(0, ("finding:first-create", first))
+    G.write_cooler(os.path.join(root, "warmup.cool"), "A4", True, COLS1, [[0, 1, [1]]])
+
     exprs = [model_expr(case) for _, case in cases]
     model = C.coq_eval(G.IMPORTS, exprs, tmpdir=ctx.tmp / "mv", shard=120, jobs=4)
     timeouts = 0
@@ -482,6 +519,14 @@ def run(ctx):
     for (kind, case), mo in zip(cases, model):
         ctx.case(case, nontrivial=nontrivial(case), kind=kind)
         if timeouts >= 3:
+            continue
+        if case.get("first_create_in_process"):
+            got = impl_fresh_process(root, case)
+            exp = oracle(case)
+            if isinstance(got, dict):
+                # the content must be right in any case; only the temp-file clause is the known finding
+                ctx.compare("create_from_unordered", case, {k: got[k] for k in exp}, {k: parse_model(mo, case)[k] for k in exp})
+            check_oracle(ctx, case, got, exp)
             continue
         got = impl_api(root, case) if case["fn"] == "api" else impl_cli(root, case)
         if got == "timeout":
@@ -509,7 +554,11 @@ def replay(ctx, case):
         n = case["n"]
         e = np.linspace(0, n, max(int(np.sqrt(n)), 2), dtype=int).tolist()
         return e[0] == 0 and e[-1] == n and all(b > a for a, b in zip(e, e[1:]))
-    got = impl_api(root, case) if case["fn"] == "api" else impl_cli(root, case)
+    if case.get("first_create_in_process"):
+        got = impl_fresh_process(root, case)
+    else:
+        G.write_cooler(os.path.join(root, "warmup.cool"), "A4", True, COLS1, [[0, 1, [1]]])
+        got = impl_api(root, case) if case["fn"] == "api" else impl_cli(root, case)
     exp = oracle(case)
     print("expected:", exp)
     print("got     :", got)
